@@ -205,12 +205,13 @@ static void k_wna(const vf::Case& c) {
 }
 
 static void k_simstate(const vf::Case& c) {
-    long D = c.mi("D"), T = c.mi("T"), ir = c.mi("ir"), calls = c.mi("calls");
+    long D = c.mi("D"), T = c.mi("T"), ir = c.mi("ir");
     std::unique_ptr<WhiteNoiseAcceleration> w;
     { E e("WhiteNoiseAcceleration::WhiteNoiseAcceleration"); w.reset(new WhiteNoiseAcceleration(wdim(D), 0.7, 1.3, 5)); }
     std::unique_ptr<SimulatedStateModel> s;
     { E e("SimulatedStateModel::SimulatedStateModel"); s.reset(new SimulatedStateModel(std::move(w), VectorXd(filled(ir, 1)), T)); }
-    for (long k = 0; k < calls; k++) {
+    for (auto& t : c.word("ops")) {
+        if (t == "r") { E e("SimulatedStateModel::setProperty"); s->setProperty("reset"); continue; }
         E e("SimulatedStateModel::bufferData");
         bool r = s->bufferData(); ob(r ? 1 : 0);
         if (r) { MatrixXd d = any::any_cast<MatrixXd>(s->getData()); ob(d.rows()); ob(d.cols()); }
@@ -294,7 +295,9 @@ static void k_ut(const vf::Case& c) {
     bool valid = c.mi("valid") != 0;
     long pr = c.mi("pr"), pc = c.mi("pc"), qr = c.mi("qr"), qc = c.mi("qc");
     GaussianMixture in = make_mixture(li, comps, c.mi("inoise"));
-    sigma_point::UTWeight wt((std::size_t)w, 1.0, 2.0, 0.5);
+    std::unique_ptr<sigma_point::UTWeight> wtp;
+    { E e("sigma_point::UTWeight::UTWeight"); wtp.reset(new sigma_point::UTWeight((std::size_t)w, 1.0, 2.0, 0.5)); }
+    sigma_point::UTWeight& wt = *wtp;
     if (variant == 0) {
         sigma_point::FunctionEvaluation f = [&](const Ref<const MatrixXd>& s) {
             MatrixXd p(pr, pc);
@@ -355,8 +358,9 @@ static void k_ukfp(const vf::Case& c) {
     long comps = c.mi("comps"), q = c.mi("q");
     GaussianMixture prev = make_mixture(lp, comps), pred(1, 1);
     std::unique_ptr<UKFPrediction> u;
-    if (additive) u.reset(new UKFPrediction(std::unique_ptr<AdditiveStateModel>(new UAddState(ls, q, q)), 1.0, 2.0, 0.5));
-    else u.reset(new UKFPrediction(std::unique_ptr<StateModel>(new UState(ls, q)), 1.0, 2.0, 0.5));
+    { E e("UKFPrediction::UKFPrediction");
+      if (additive) u.reset(new UKFPrediction(std::unique_ptr<AdditiveStateModel>(new UAddState(ls, q, q)), 1.0, 2.0, 0.5));
+      else u.reset(new UKFPrediction(std::unique_ptr<StateModel>(new UState(ls, q)), 1.0, 2.0, 0.5)); }
     E e("UKFPrediction::predict");
     u->predict(prev, pred); ob(pred.components); ob(pred.dim); ob(pred.dim_covariance);
 }
@@ -369,8 +373,9 @@ static void k_ukfc(const vf::Case& c) {
     std::unique_ptr<UMeas> mm(new UMeas(lm, lp, r, ir, valid));
     UMeas* raw = mm.get();
     std::unique_ptr<UKFCorrection> u;
-    if (additive) u.reset(new UKFCorrection(std::unique_ptr<AdditiveMeasurementModel>(std::move(mm)), 1.0, 2.0, 0.5));
-    else u.reset(new UKFCorrection(std::unique_ptr<MeasurementModel>(std::move(mm)), 1.0, 2.0, 0.5));
+    { E e("UKFCorrection::UKFCorrection");
+      if (additive) u.reset(new UKFCorrection(std::unique_ptr<AdditiveMeasurementModel>(std::move(mm)), 1.0, 2.0, 0.5));
+      else u.reset(new UKFCorrection(std::unique_ptr<MeasurementModel>(std::move(mm)), 1.0, 2.0, 0.5, c.mi("online") != 0)); }
     { E e("UKFCorrection::correct"); u->freeze_measurements(); u->correct(pred, corr); ob(corr.components); ob(corr.dim); }
     { E e("UKFCorrection::getLikelihood"); auto l = u->getLikelihood(); ob(l.first ? 1 : 0); ob(l.second.size()); }
     if (c.mi("again")) {     // a second correction whose evaluation fails, then the likelihood
@@ -386,7 +391,9 @@ static void k_sukf(const vf::Case& c) {
     GaussianMixture pred = make_mixture(lp, comps), corr = make_mixture(lq, c.mi("compsq"), 0, 2);
     UMeas* raw = new UMeas(Layout{msz, 0, false}, lp, r, ir, true);
     std::unique_ptr<AdditiveMeasurementModel> mm(raw);
-    SUKFCorrection u(std::move(mm), 1.0, 2.0, 0.5, (std::size_t)sub, false);
+    std::unique_ptr<SUKFCorrection> up;
+    { E e("SUKFCorrection::SUKFCorrection"); up.reset(new SUKFCorrection(std::move(mm), 1.0, 2.0, 0.5, (std::size_t)sub, c.mi("reduced") != 0)); }
+    SUKFCorrection& u = *up;
     { E e("SUKFCorrection::correct"); u.freeze_measurements(); u.correct(pred, corr); ob(corr.components); ob(corr.dim); }
     { E e("SUKFCorrection::getLikelihood"); auto l = u.getLikelihood(); ob(l.first ? 1 : 0); ob(l.second.size()); }
     if (c.mi("again")) {
@@ -404,6 +411,7 @@ static void k_resample(const vf::Case& c) {
     ParticleSet cor = make_particles(lc, c.mi("n")), res = make_particles(lr, c.mi("nr"), 2);
     VectorXi parents(c.mi("np"));
     Resampling r(11);
+    { E e("Resampling::neff"); double ne = r.neff(cor.weight()); (void)ne; }
     E e("Resampling::resample");
     r.resample(cor, res, parents); ob_particles(res);
 }
